@@ -118,10 +118,9 @@ func TestC09(t *testing.T) {
 	rep.Assume("a sequence number consumed by a refused write is tolerated (the statement speaks of accepted writes); counted in seq_numbers_consumed_by_refused_writes")
 	seed := vh.Seed()
 	r := vh.Sub(seed, "c09")
-	all, err := shippedMessages()
-	if err != nil {
-		t.Fatal(err)
-	}
+	all := shippedOrViolation(rep, t)
+	var err error
+	_ = err
 	// dialect: common heartbeat + request_data_stream (for node automatic traffic) + picked types incl. ones with extensions and ids > 255
 	byType := map[reflect.Type]*msgInfo{}
 	for _, mi := range all {
